@@ -717,6 +717,11 @@ def _lin_expand(op, args, positions):
 
 
 def _structural(op, args):
+    if op == "matmul" and len(args) == 2 and isinstance(args[0], Poly):
+        # a batch axis added in front of the last two commutes with a product from the right: (x[..., None, :]) @ M = (x @ M)[..., None, :]
+        ua = args[0].single_atom()
+        if isinstance(ua, App) and ua.op == "unsq" and len(ua.args) >= 3 and isinstance(ua.args[1], int) and ua.args[1] <= -2 and isinstance(ua.args[2], int) and ua.args[2] >= 3:
+            return app("unsq", app("matmul", ua.args[0], args[1]), ua.args[1], ua.args[2])
     # unsq/sq/view of a pure constant stay constants (broadcast scalars)
     if op in ("unsq", "sq", "view", "expand", "t", "transpose", "roll", "repeat", "flatten_last2", "index"):
         a = P(args[0])
